@@ -32,9 +32,9 @@ MaxNotes == 6     \* failing probes recorded per scene (all are counted)
 PointOf(g, iz, i) ==
   LET ix == (i - 1) % g.n
       iy == (i - 1) \div g.n
-  IN \* half-lattice: coordinate = lo + i*step + off/2 (off in {0, 1}), homogeneous with D = 2
-     <<2 * (g.lo[1] + ix * g.step) + g.off[1], 2 * (g.lo[2] + iy * g.step) + g.off[2],
-       2 * (g.lo[3] + iz * g.step) + g.off[3], 2>>
+  IN \* half-lattice: coordinate = lo + i*step + off/2 per axis (off in {0, 1}), homogeneous with D = 2
+     <<2 * (g.lo[1] + ix * g.step[1]) + g.off[1], 2 * (g.lo[2] + iy * g.step[2]) + g.off[2],
+       2 * (g.lo[3] + iz * g.step[3]) + g.off[3], 2>>
 
 \* <<class, expected, reported, point>>
 Classify(rec, i) ==
